@@ -130,6 +130,22 @@ PROPS = {
         "assumptions": ["all other consensus inputs are read from the database (checked by reading SyncBlock: rates, holding, balances, bank, snapshots go through SQL); the rolling-average cache is the only in-memory state that influences results",
                         "rates are non-zero (a recorded 0 counts as missing in both paths alike)"],
     },
+    "C20": {
+        "asserts": ["C20.", "uncaught-panic"],
+        "harnesses": [
+            {"id": "amount", "func": "VerifAmount", "pkg": "cmd", "pkgname": "cmd", "load": ["./cmd"],
+             "params": {"quick": {"maxint": 20, "maxfrac": 9}, "thorough": {"maxint": 22, "maxfrac": 10}},
+             "must_cover": ["converted", "too-many-decimals"], "max_witness_replays": 6},
+            {"id": "validate", "func": "VerifValidate", "pkg": "fat/fat2", "pkgname": "fat2", "load": ["./fat/fat2"],
+             "params": {"quick": {"maxtx": 2, "maxout": 2}, "thorough": {"maxtx": 3, "maxout": 2}},
+             "must_cover": ["accepted", "rejected"], "max_witness_replays": 6},
+        ],
+        "wall": {"quick": 400, "thorough": 3000},
+        "bounds": {"quick": "decimal strings of the accepted shape with 0..20 integer digits and 0..9 fraction digits, every digit symbolic; decoded batches of 0..2 transactions with 0..2 transfers, all amounts uint64, tickers over the full range",
+                   "thorough": "22/10 digits; 3 transactions"},
+        "assumptions": ["the three regular expressions of cmd/util.go are modelled by per-pattern predicates keyed on the pattern text; strconv.Atoi/ParseUint are interpreted from their real SSA",
+                        "NOT APPLICABLE sub-claim: the accepted language of the JSON parser and the re-encoding round trip (encoding/json is reflection-driven over unbounded byte strings; DESIGN §9)"],
+    },
     "C11": {
         "asserts": ["C11.", "uncaught-panic"],
         "harnesses": [
